@@ -40,7 +40,8 @@ func (o *Obl) Family() string {
 		if i := strings.LastIndex(name, "@r"); i > 0 {
 			name = name[:i]
 		}
-	case "at-call":
+	case "at-call", "guarded", "lock", "cover":
+		// ...@file:line -> position stripped
 		if i := strings.LastIndex(name, "@"); i > 0 && strings.Contains(name[i:], ":") {
 			name = name[:i]
 		}
